@@ -111,6 +111,22 @@ func (c05) RunCase(c fw.Case, env *fw.Env) *fw.CaseResult {
 	steps := c.Int("steps", 20)
 	for step := 0; step < steps; step++ {
 		op := h.Next(m)
+		if step%5 == 4 && len(m.Docs) > 2 {
+			// one batch names a point twice: the text is taken away and given back (or replaced) in
+			// the same request
+			op = gen.Op{Kind: gen.OpUpdate, Tag: "remove-and-readd-text"}
+			ids := m.SortedIds()
+			for i := 0; i < min(5, len(ids)); i++ {
+				id := ids[g.R.IntN(len(ids))]
+				field := []string{"txt", "meta"}[g.R.IntN(2)]
+				op.Points = append(op.Points, model.Point{Id: id, Doc: model.Doc{field: model.DeleteValue}})
+				if field == "txt" {
+					op.Points = append(op.Points, model.Point{Id: id, Doc: model.Doc{"txt": g.Text()}})
+				} else {
+					op.Points = append(op.Points, model.Point{Id: id, Doc: model.Doc{"meta": map[string]any{"body": g.Text()}}})
+				}
+			}
+		}
 		ok, out := applyOp(res, "C05", s, m, op, step)
 		if !ok {
 			return res
